@@ -200,6 +200,9 @@ extern "C" int harness_main()
 	cfg.out[sender].append(std::make_shared<seg_probe>(false));
 #if LOSS == 1
 	drp = std::make_shared<dropper>(DROPS, 3);
+#ifdef STRIDE
+	drp->stride = 2;     // faults on segments 0, 2, ...: holes that are not adjacent
+#endif
 #ifdef FARDROP
 	// the faulty hop sits behind the network queue: a drop is reported back after later segments were sent already
 	cfg.net.append(std::static_pointer_cast<sink>(drp));
@@ -234,7 +237,11 @@ extern "C" int harness_main()
 	tcp::socket& wsock = DIR == 0 ? cli : srv;
 	tcp::socket& rsock = DIR == 0 ? srv : cli;
 	w.sock = &wsock; w.st = &st;
+#ifdef CHUNK1
+	w.chunk = 1;
+#else
 	{ int const chunks[4] = {1, MTU, MTU + 1, LEN}; w.chunk = chunks[vp_choose(4)]; }
+#endif
 	w.layout = vp_choose(2);
 	w.close_when_done = REUSE ? true : vp_choose(2) == 1;
 	w.close_after = -1;
